@@ -154,6 +154,28 @@ Section Tamper.
     destruct ok; [reflexivity|discriminate].
   Qed.
 
+  (* Manager.Save writes under the fresh ticket unless the request's ticket cookie validates: a ticket
+     that was merely presented (unsigned, signed with another secret, expired) is never adopted *)
+  Lemma manager_save_key_fresh_or_valid cfg host cs now fresh created ok :
+    fst (manager_save mac cfg host cs now fresh created ok) = fst fresh \/
+    exists v raw t sec,
+      find_cookie (c_name cfg) cs = Some v /\
+      validate mac (c_name cfg) v now (c_expire_ns cfg) = Some (raw, t) /\
+      decode_ticket raw = Some (fst (manager_save mac cfg host cs now fresh created ok), sec).
+  Proof.
+    unfold manager_save, ticket_from_request.
+    destruct (find_cookie (c_name cfg) cs) as [v|] eqn:Hf; [|left; destruct fresh; reflexivity].
+    destruct (validate mac (c_name cfg) v now (c_expire_ns cfg)) as [[raw t]|] eqn:Hv; [|left; destruct fresh; reflexivity].
+    destruct (decode_ticket raw) as [[id sec]|] eqn:Hd; [|left; destruct fresh; reflexivity].
+    right. exists v, raw, t, sec. cbn [fst]. auto.
+  Qed.
+
+  (* ... and the cookie it hands out names exactly the key it wrote *)
+  Lemma manager_save_no_valid_cookie_fresh cfg host cs now fresh created ok :
+    ticket_from_request mac cfg cs now = None ->
+    fst (manager_save mac cfg host cs now fresh created ok) = fst fresh.
+  Proof. unfold manager_save. intros ->. destruct fresh. reflexivity. Qed.
+
   (* Manager.Clear reports success only if the delete succeeded or there was no cookie at all *)
   Lemma manager_clear_success cfg host cs now del_ok dels key :
     manager_clear mac cfg host cs now del_ok = (dels, key, true) ->
